@@ -36,7 +36,7 @@ type c19Scenario struct {
 	Reqs    []c19Req `json:"reqs"`
 }
 
-var c19Endings = []string{"served", "served", "served", "served-hints", "served-head", "served-buffered", "404", "redirect", "tls-503", "paused-504", "stopped-503", "bounced-503", "bounced-504",
+var c19Endings = []string{"served", "served", "served", "served-hints", "served-head", "served-buffered", "404", "redirect", "tls-503", "paused-504", "stopped-503", "bounced-503", "bounced-504", "bounced-200",
 	"target-502", "target-504", "target-truncated", "413", "500-overflow", "abort-waiting", "abort-waiting-buffered", "abort-download", "abort-upload", "upgrade"}
 
 func c19Gen(rng *rand.Rand, idx int) c19Scenario {
@@ -79,6 +79,11 @@ func c19Gen(rng *rand.Rand, idx int) c19Scenario {
 			r.Host = "pz.example"
 		case "stopped-503":
 			r.Host = "st.example"
+		case "bounced-200":
+			// passes the gate of a running service; a pause begins and its drain is still waiting for
+			// a slower request when this one tries to claim a target: it is turned away, goes back to
+			// the gate, is held, and is forwarded after resume (200 from the target)
+			r.Host = "bn.example"
 		case "bounced-503", "bounced-504":
 			// passes the gate of a running service; stop (pause) takes effect before its claim is
 			// admitted, so it goes back to the gate and is answered by the proxy without ever
@@ -249,6 +254,15 @@ func c19Run(t *testing.T, run *Run, sc c19Scenario) {
 			}
 			time.Sleep(100 * time.Millisecond)
 			outs[r.ID] = outcome{status: -1}
+		case "bounced-200":
+			w.SetReqDelay(r.ID, "service.gate.passed", 2*time.Second)
+			t0 := w.Now()
+			w.GoReq(t0+OffArrival, Req{ID: r.ID + "-slow", Host: "bn.example", Path: "/slow", Lat: 3 * time.Second})
+			w.At(t0+time.Second, func() { w.Pause("bn", 10*time.Second, 30*time.Second) })
+			w.At(t0+4*time.Second, func() { w.Resume("bn") })
+			resp := w.Do(req)
+			outs[r.ID] = outcome{status: resp.Status, bodyLen: resp.BodyLen, complete: resp.Err == "" && resp.Status > 0, xtarget: resp.Target}
+			w.Wait()
 		case "bounced-503", "bounced-504":
 			w.SetReqDelay(r.ID, "service.gate.passed", 2*time.Second)
 			kind := r.Ending
@@ -347,7 +361,7 @@ func c19Run(t *testing.T, run *Run, sc c19Scenario) {
 				return
 			}
 		default:
-			want := map[string]int{"served": 200, "served-hints": 200, "served-head": 200, "served-buffered": 200, "404": 404, "redirect": 301, "tls-503": 503, "paused-504": 504, "stopped-503": 503, "bounced-503": 503, "bounced-504": 504, "target-502": 502, "target-504": 504, "413": 413, "500-overflow": 500}[r.Ending]
+			want := map[string]int{"served": 200, "served-hints": 200, "served-head": 200, "served-buffered": 200, "404": 404, "redirect": 301, "tls-503": 503, "paused-504": 504, "stopped-503": 503, "bounced-503": 503, "bounced-504": 504, "bounced-200": 200, "target-502": 502, "target-504": 504, "413": 413, "500-overflow": 500}[r.Ending]
 			if o.status != want {
 				fail("harness-expectation:"+r.Ending, "request %s (%s): client got status %d, scenario expected %d", r.ID, r.Ending, o.status, want)
 				return
